@@ -266,6 +266,10 @@ type machine struct {
 func (m *machine) exec(t *rapid.T, stmt string) {
 	o := m.in.Run(stmt, interp.Opts{Env: m.env})
 	m.history = append(m.history, stmt)
+	if o.Kind == interp.Fuel {
+		vt.Discard("the evaluation ran out of its budget (inconclusive)")
+		t.Skip("budget")
+	}
 	if o.Kind != interp.Value {
 		vt.Fail(t, "setup", fmt.Sprintf("statement %q gave %s", stmt, o.Show()), Case{History: m.history, Query: "nil", Want: "nil"})
 	}
@@ -274,6 +278,10 @@ func (m *machine) exec(t *rapid.T, stmt string) {
 func (m *machine) ask(t *rapid.T, kind, query, want, wantOut string) {
 	vt.Eval()
 	o := m.in.Run(query, interp.Opts{Env: m.env})
+	if o.Kind == interp.Fuel {
+		vt.Discard("the evaluation ran out of its budget (inconclusive)")
+		t.Skip("budget")
+	}
 	got := observe(o)
 	gotOut := cleanOut(o.Stdout)
 	hist := append([]string{}, m.history...)
